@@ -37,16 +37,17 @@ from sim import core
 PROPERTY = "C15"
 ISOLATE = True
 TIERS = {
-    "quick": {"runs": 14000, "budget_s": 45, "timeout_s": 40, "chunk": 32, "det_sample": 48, "det_runs": 300,
-              "shrink_execs": 400, "shrink_s": 60.0},
-    "thorough": {"runs": 400000, "budget_s": 600, "timeout_s": 60, "chunk": 32, "det_sample": 64, "det_runs": 1000,
-                 "shrink_execs": 600, "shrink_s": 120.0},
+    "quick": {"runs": 10000, "budget_s": 60, "timeout_s": 40, "chunk": 32, "det_sample": 48, "det_runs": 300,
+              "shrink_execs": 600, "shrink_s": 60.0},
+    "thorough": {"runs": 400000, "budget_s": 570, "timeout_s": 60, "chunk": 32, "det_sample": 64, "det_runs": 1000,
+                 "shrink_execs": 800, "shrink_s": 120.0},
 }
 RULE = ("seeded histories of <= 40 (thorough: <= 60) operations on one tiny grid (1-3d Unit/Cartesian, polar, cylindrical; "
         "<= 4 cells per axis): construct scalar/vector/tensor fields and collections (real/complex), derive handles (.data, "
-        "._data_full, fc[i], v[i]/v['x'], t[i,j], copy, slice, append, unary, binary, operators, storage round trip), write "
-        "unique sentinels, in-place arithmetic, setitem/data assignment, set_ghost_cells, apply/apply_operator with out=, "
-        "drop+gc; swarm: every run enables a random subset of operation kinds; a run is non-trivial if at least one "
+        "._data_full, fc[i], v[i]/v['x'], t[i,j], copy, slice, append, from_data, from_scalars, unary, binary, operators, "
+        "to_scalar, dot, tensor conversions, numpy ufuncs on scalar fields, smooth, storage round trip), write unique "
+        "sentinels, in-place arithmetic (incl. transpose/symmetrize in place), setitem/data assignment, set_ghost_cells, "
+        "apply/apply_operator/dot/ufunc/smooth with out=, drop+gc; swarm: every run enables a random subset of operation kinds; a run is non-trivial if at least one "
         "sentinel was written through a handle while another live handle covered the written cell; distinct = distinct "
         "(grid, operation list)")
 PROBES = ["probes/write_seen_through_alias", "probes/relink_dropped_handle", "probes/inplace_with_collection",
@@ -73,8 +74,11 @@ ASSUMPTIONS = [
     "everything outside the ghost cells of the addressed field must stay bit-identical",
     "values produced by floating-point arithmetic are compared within 1e-9 relative (non-finite accepted for non-finite) "
     "and then adopted; copies, assignments, negation, real/imag/conjugate and sentinel writes are compared bit for bit",
-    "operator results are compared (1e-9) with the same operator applied to an independent field built from the model's "
-    "bytes; `out=` targets living in the source's own buffer are not generated (not documented to work)",
+    "operator and smooth results are compared (1e-9) with the same call on an independent field built from the model's "
+    "bytes; `out=` targets that partially overlap the source, and operator/dot `out=` targets living in a source's own "
+    "buffer, are not generated (not documented to work); smooth only on real fields",
+    "FieldCollection.from_data with complex data and with_ghost_cells=False is not generated (numpy drops the imaginary part "
+    "with a ComplexWarning; a dtype/value matter outside this property)",
     "after FieldCollection(fields, copy_fields=False) every OTHER handle onto the buffers the fields used to live in "
     "(old collection, old data arrays, old component views, siblings) is dropped from the model, not asserted on",
     "only documented-legal operand combinations are generated (same grid, compatible classes, castable dtypes, scalar "
@@ -93,11 +97,12 @@ _NUMS_IM = [1.0, -0.5, 2.0, 0.25]
 _POWS = [2.0, 3.0, 2.0, 0.5, -1.0, 1.0]
 
 _OP_WEIGHTS = {
-    "new": 6, "fc": 8, "from_data": 2, "from_scalars": 1,
+    "new": 4, "fc": 8, "from_data": 2, "from_scalars": 1,
     "data": 5, "full": 3, "member": 6, "comp": 6,
     "copy": 4, "slice": 3, "append": 3, "unary": 3, "binary": 5,
     "inplace": 9, "write": 20, "setitem": 5, "setdata": 4,
     "ghost": 3, "operator": 5, "apply": 3, "store": 2, "reread": 2, "drop": 2,
+    "tconvert": 2, "ufunc": 2, "smooth": 2, "toscalar": 2, "dot": 2,
 }
 _CORE_KINDS = ("new", "write")
 
@@ -188,6 +193,19 @@ def _gen_op(rng, kind, pc):
     if kind == "apply":
         return {"op": "apply", "h": s(), "fn": rng.choice(["double", "neg", "shift", "sq"]),
                 "out": s() if rng.random() < 0.5 else None}
+    if kind == "tconvert":
+        return {"op": "tconvert", "h": s(), "form": rng.choice(["transposed", "symmetric", "anti-symmetric", "traceless"]),
+                "inplace": rng.random() < 0.6}
+    if kind == "ufunc":
+        return {"op": "ufunc", "h": s(), "fn": rng.choice(["negative", "square", "add", "multiply"]), "v": _gen_val(rng, pc),
+                "out": s() if rng.random() < 0.5 else None}
+    if kind == "smooth":
+        return {"op": "smooth", "h": s(), "sigma": rng.choice([0.5, 1.0, 2.0]), "out": s() if rng.random() < 0.6 else None}
+    if kind == "toscalar":
+        return {"op": "toscalar", "h": s(), "how": rng.choice(["auto", "comp", "comp", "norm_squared"]), "i": rng.randrange(6)}
+    if kind == "dot":
+        return {"op": "dot", "h": s(), "o": s(), "out": s() if rng.random() < 0.5 else None, "conj": rng.random() < 0.5,
+                "mat": rng.random() < 0.2}
     raise AssertionError(kind)
 
 
@@ -199,9 +217,12 @@ def gen_plan(rng, tier, idx):
     weights = [_OP_WEIGHTS[k] * rng.choice([0.5, 1.0, 1.0, 2.0]) for k in kinds]
     ops = []
     n_start = rng.choice([1, 2, 2, 3])
+    early_fc = rng.random() < 0.6
     for i in range(n_ops):
         if i < n_start:
             kind = "new"
+        elif i == n_start and early_fc:
+            kind = "fc"
         else:
             kind = rng.choices(kinds, weights)[0]
         ops.append(_gen_op(rng, kind, pc))
@@ -255,6 +276,9 @@ def simplify(plan):
         if o["op"] == "from_data" and len(o["classes"]) > 1:
             yield variant(lambda p, k=k: p["ops"][k].update(classes=p["ops"][k]["classes"][:-1]))
             yield variant(lambda p, k=k: p["ops"][k].update(classes=p["ops"][k]["classes"][1:]))
+        for key in ("members", "others"):
+            if key in o and any(m > 3 for m in o[key]):
+                yield variant(lambda p, k=k, key=key: p["ops"][k].update({key: [m % 4 for m in p["ops"][k][key]]}))
         if o["op"] == "append" and len(o["others"]) > 1:
             yield variant(lambda p, k=k: p["ops"][k].update(others=p["ops"][k]["others"][:-1]))
         if o.get("g"):
@@ -458,6 +482,8 @@ class _Sim:
         real = obj._data_full
         dshape = tuple(dshape)
         ncomp = int(np.prod(dshape, dtype=int)) if dshape else 1
+        if not isinstance(real, np.ndarray) or not real.flags.writeable:
+            self.stop("not-writeable", f"the padded array of a new {type(obj).__name__} is not a writeable ndarray")
         if real.shape != dshape + self.fshape:
             self.stop("shape", f"new object has padded shape {real.shape}, expected {dshape + self.fshape}")
         pred = pred_full if pred_full is not None else pred_valid
@@ -498,6 +524,8 @@ class _Sim:
     def adopt_ghost(self, h):
         """ghost cells of the field addressed by h were set by boundary conditions: adopt them."""
         real = self.real_of(h)
+        if real.shape != h.dshape + self.fshape or real.dtype != self.M[h.buf].dtype:
+            self.stop("shape", f"padded array of {h.desc()} is now {real.dtype}{real.shape}")
         self.mfull(h)[(Ellipsis, self.gmask)] = real[(Ellipsis, self.gmask)]
 
     # ---------------------------------------------------------------- oracle
@@ -757,6 +785,8 @@ class _Sim:
         if h is None:
             return None
         arr = self.call(lambda: h.obj._data_full if full else h.obj.data)
+        if not isinstance(arr, self.np.ndarray):
+            self.stop("shape", f"{'_data_full' if full else 'data'} of {h.desc()} is a {type(arr).__name__}")
         n = self.add_handle(_H("A", arr, h.buf, h.c0, h.c1, h.dshape, full=full, compview=h.compview))
         return f"{'full' if full else 'data'} {n.desc()} of {h.desc()}"
 
@@ -978,6 +1008,8 @@ class _Sim:
         on_ghost = bool(self.gmask[cell])
         covering = [x for x in self.H if x is not h and x.buf == h.buf and x.c0 <= comp < x.c1
                     and not (on_ghost and x.kind == "A" and not x.full)]
+        if not isinstance(target, np.ndarray) or target.shape != mv.shape or not target.flags.writeable:
+            self.stop("shape", f"array behind {h.desc()} is not a writeable ndarray of shape {mv.shape}")
         target[idx] = val
         mv[idx] = val
         if covering:
@@ -1113,6 +1145,163 @@ class _Sim:
         n = self._register_result(r, h.kind, self._members0(h), pred, exact=False)
         return f"apply {o['fn']} {h.desc()} -> {n.desc()}"
 
+    def op_tconvert(self, o):
+        np = self.np
+        h = self.pick(o["h"], lambda h: h.kind == "T")
+        if h is None:
+            return None
+        form, inplace = o["form"], bool(o["inplace"])
+        t = self.mvalid(h).copy()
+        tt = np.swapaxes(t, 0, 1)
+        if form == "transposed":
+            pred = tt.copy()
+        elif form == "symmetric":
+            pred = (t + tt) * 0.5
+        elif form == "anti-symmetric":
+            pred = (t - tt) * 0.5
+        else:
+            pred = t.copy()
+            tr = np.trace(t, axis1=0, axis2=1)
+            for i in range(self.dim):
+                pred[i, i] -= tr / self.dim
+        if form == "transposed":
+            r = self.call(lambda: h.obj.transpose(inplace=inplace))
+        elif form == "symmetric":
+            r = self.call(lambda: h.obj.symmetrize(inplace=inplace))
+        else:
+            r = self.call(lambda: h.obj.convert(form, inplace=inplace))
+        pred = np.ascontiguousarray(pred)
+        if inplace:
+            if r is not h.obj:
+                self.stop("identity", f"convert({form!r}, inplace=True) on {h.desc()} returned another object")
+            self.adopt_valid(h, pred, f"convert {form} in place")
+            return f"tconvert {form} in place {h.desc()}"
+        n = self._register_result(r, "T", None, pred, exact=False)
+        return f"tconvert {form} {h.desc()} -> {n.desc()}"
+
+    def op_ufunc(self, o):
+        np = self.np
+        h = self.pick(o["h"], lambda h: h.kind == "S")
+        if h is None:
+            return None
+        fn = o["fn"]
+        ufn = getattr(np, fn)
+        av = self.mvalid(h).copy()
+        if fn in ("negative", "square"):
+            args, margs, desc = (h.obj,), (av,), ""
+        else:
+            spec = dict(o["v"], shape="grid")
+            x, xm, desc, _ = self.operand(spec, (), allow_c=True, field_ok=lambda b: b.kind == "S")
+            args, margs = (h.obj, x), (av, xm)
+        with np.errstate(all="ignore"):
+            pred = np.ascontiguousarray(ufn(*margs))
+        out = self.pick(o.get("out"), lambda x: x.kind == "S" and (self.M[x.buf].dtype == pred.dtype or self.is_c(x.buf)))
+        if out is not None:
+            self.probe("out_argument")
+            r = self.call(lambda: ufn(*args, out=out.obj))
+            if r is not out.obj:
+                self.stop("identity", f"np.{fn}(..., out=field) returned another object than `out` ({type(r).__name__})")
+            self.adopt_valid(out, pred, f"ufunc {fn} out=")
+            return f"ufunc {fn} {h.desc()} {desc} out={out.desc()}"
+        r = self.call(lambda: ufn(*args))
+        n = self._register_result(r, "S", None, pred, exact=False)
+        return f"ufunc {fn} {h.desc()} {desc} -> {n.desc()}"
+
+    def op_smooth(self, o):
+        np = self.np
+        h = self.pick(o["h"], lambda h: h.kind != "A" and not self.is_c(h.buf))
+        if h is None:
+            return None
+        sigma = float(o["sigma"])
+
+        def out_ok(x):
+            same_layout = x.kind == h.kind and (h.kind != "C" or [m[0] for m in x.members] == [m[0] for m in h.members])
+            place_ok = x.buf != h.buf or (x.c0, x.c1) == (h.c0, h.c1)
+            return same_layout and place_ok and not self.is_c(x.buf)
+
+        out = self.pick(o.get("out"), out_ok)
+        # reference: the same call on an independent object built from the model's bytes
+        if h.kind == "C":
+            parts = [self.cls[k](self.grids[0], data=self.M[h.buf][c0:c1].reshape(self.dshape_of(k) + self.fshape).copy(),
+                                 with_ghost_cells=True) for (k, c0, c1) in h.members]
+            ref_in = self.call(lambda: self.pde.FieldCollection(parts), "smooth-reference")
+        else:
+            ref_in = self.call(lambda: self.cls[h.kind](self.grids[0], data=self.mfull(h).copy(), with_ghost_cells=True),
+                               "smooth-reference")
+        ref = self.call(lambda: ref_in.smooth(sigma), "smooth-reference")
+        pred = np.ascontiguousarray(ref.data)
+        if out is not None:
+            self.probe("out_argument")
+            r = self.call(lambda: h.obj.smooth(sigma, out=out.obj))
+            if r is not out.obj:
+                self.stop("identity", f"smooth(out=...) returned another object than `out` ({type(r).__name__})")
+            self.adopt_valid(out, pred, "smooth out=")
+            return f"smooth {h.desc()} sigma={sigma} out={out.desc()}"
+        r = self.call(lambda: h.obj.smooth(sigma))
+        n = self._register_result(r, h.kind, self._members0(h), pred, exact=False)
+        return f"smooth {h.desc()} sigma={sigma} -> {n.desc()}"
+
+    def op_toscalar(self, o):
+        np = self.np
+        h = self.pick(o["h"], lambda h: h.kind in ("S", "V"))
+        if h is None:
+            return None
+        av = self.mvalid(h).copy()
+        how = o["how"]
+        exact = False
+        with np.errstate(all="ignore"):
+            if h.kind == "S":
+                if how == "norm_squared":
+                    arg, pred = "norm_squared", av * av.conj()
+                else:
+                    arg = "auto"
+                    if self.is_c(h.buf):
+                        pred = np.abs(av)
+                    else:
+                        pred, exact = av, True  # documented: an (unchanged) copy of a real field
+            else:
+                if how == "norm_squared":
+                    arg, pred = "norm_squared", np.sum(av * av.conj(), axis=0)
+                else:
+                    arg = o["i"] % self.dim
+                    pred, exact = av[arg], True  # the selected component
+        r = self.call(lambda: h.obj.to_scalar(arg))
+        n = self._register_result(r, "S", None, np.ascontiguousarray(pred), exact=exact)
+        return f"toscalar {arg!r} {h.desc()} -> {n.desc()}"
+
+    def op_dot(self, o):
+        np = self.np
+        a = self.pick(o["h"], lambda h: h.kind in ("V", "T"))
+        b = self.pick(o["o"], lambda h: h.kind in ("V", "T"))
+        if a is None or b is None:
+            return None
+        conj = bool(o["conj"])
+        av, bv = self.mvalid(a).copy(), self.mvalid(b).copy()
+        if conj:
+            bv = bv.conj()
+        if a.kind == "V":
+            out_kind = "S" if b.kind == "V" else "V"
+            pred = np.einsum("i...,i...->...", av, bv)
+        else:
+            out_kind = b.kind
+            pred = np.einsum("ij...,j...->i...", av, bv)
+        cdt = np.dtype(np.complex128) if (self.is_c(a.buf) or self.is_c(b.buf)) else np.dtype(np.float64)
+        pred = np.ascontiguousarray(pred.astype(cdt))
+        out = self.pick(o.get("out"), lambda x: x.kind == out_kind and x.buf not in (a.buf, b.buf) and self.M[x.buf].dtype == cdt)
+        if out is not None:
+            self.probe("out_argument")
+            r = self.call(lambda: a.obj.dot(b.obj, out=out.obj, conjugate=conj))
+            if r is not out.obj:
+                self.stop("identity", f"dot(out=...) returned another object than `out` ({type(r).__name__})")
+            self.adopt_valid(out, pred, "dot out=")
+            return f"dot {a.desc()} . {b.desc()} out={out.desc()}"
+        if o["mat"] and conj:
+            r = self.call(lambda: a.obj @ b.obj)
+        else:
+            r = self.call(lambda: a.obj.dot(b.obj, conjugate=conj))
+        n = self._register_result(r, out_kind, None, pred, exact=False)
+        return f"dot {a.desc()} . {b.desc()} -> {n.desc()}"
+
     def op_store(self, o):
         h = self.pick(o["h"], lambda h: h.kind != "A")
         if h is None:
@@ -1160,6 +1349,8 @@ class _Sim:
             res = getattr(self, "op_" + o["op"])(o)
             bucket = "ops" if res is not None else "noops"
             self.stats[bucket][o["op"]] = self.stats[bucket].get(o["op"], 0) + 1
+            self.sweep_buffers()
+            self.oracle()  # on all handles, including the operands of this step
             # keep the number of live handles bounded: forget the oldest ones (never one created in this step)
             while len(self.H) > self.cap:
                 old = next((h for h in self.H if h.born != self.step), None)
@@ -1167,7 +1358,6 @@ class _Sim:
                     break
                 self.forget(old)
             self.sweep_buffers()
-            self.oracle()
             self.log.add(k, o["op"], res if res is not None else "noop", len(self.H), self.state_hash())
 
 
